@@ -110,7 +110,8 @@ def random_net(rng, *, allow_small_pipe=True):
         spec["capacity"] = rng.choice([1, 7, 100, 4096, 65536, 262144, 262144])
         spec["high_water"] = rng.choice([0, 1, 100, 4096, 65536, 65536])
     spec["send_delay"] = rng.choice([0.0, 0.0, 0.0002])
-    spec["accept_delay"] = [0.0, rng.choice([0.0, 0.001, 0.02])]
+    # jitter of the accept relative to the handshake: at most of the order of one latency
+    spec["accept_delay"] = [0.0, rng.choice([0.0, 0.0, lat])]
     return spec
 
 
